@@ -62,6 +62,7 @@ type Program struct {
 	corpus *string
 	trackedMemo map[string]bool
 	untrackedMemo map[*ssa.Function][]string
+	baseParams map[string][][2]string
 }
 
 func (P *Program) fnKey(fn *ssa.Function) string {
